@@ -67,7 +67,11 @@ impl tower::Service<http::request::Parts> for TestTransport {
         assert!(self.ready, "transport called without poll_ready -> Ready(Ok) (tower contract)");
         self.ready = false;
         log(&self.log, format!("t.call {} {:?}", req.uri, req.version));
-        let out = if self.fail == Fail::Connect { Err(MockConnectionError) } else { Ok(MockStream::reusable()) };
+        let out = if self.fail == Fail::Connect { Err(MockConnectionError) } else {
+            let stream = MockStream::reusable();
+            log(&self.log, format!("t.stream {:?} {}", stream.id(), req.uri)); // which request this stream was dialled for
+            Ok(stream)
+        };
         Box::pin(PendN { n: self.connect_pending, out: Some(out), log: self.log.clone(), name: "connect" })
     }
 }
@@ -389,5 +393,152 @@ async fn pool_service_key_and_multiplex() {
         let (r1, r2) = tokio::time::timeout(Duration::from_secs(5), both).await.expect("requests hang");
         assert!(r1.is_ok() && r2.is_ok(), "{version:?}: {:?} {:?}", r1.err(), r2.err());
         assert_eq!(count(&l, "t.call"), want_dials, "{version:?}: number of dials for two concurrent requests to one origin");
+    }
+}
+
+// ======================= round 4: the request path of ConnectionPoolService with contract-honouring connections =======================
+
+/// marker put into every response by `OriginConn`: the transport stream the request was sent on
+#[derive(Debug, Clone, Copy, PartialEq, Eq)]
+struct ServedOn(crate::client::conn::stream::mock::StreamID);
+
+/// a connection that honours the `PoolableConnection` contract (`MockSender::reuse` hands out a clone even of an
+/// exclusive connection): exclusive for HTTP/1, multiplexed for HTTP/2; every response names the stream it went over
+#[derive(Debug)]
+struct OriginConn { stream: MockStream, share: bool }
+impl crate::client::conn::Connection<crate::Body> for OriginConn {
+    type ResBody = crate::Body;
+    type Error = std::io::Error;
+    type Future = std::future::Ready<Result<http::Response<crate::Body>, Self::Error>>;
+    fn send_request(&mut self, request: http::Request<crate::Body>) -> Self::Future {
+        let mut resp = http::Response::new(request.into_body());
+        resp.extensions_mut().insert(ServedOn(self.stream.id()));
+        std::future::ready(Ok(resp))
+    }
+    fn poll_ready(&mut self, _cx: &mut Context<'_>) -> Poll<Result<(), Self::Error>> { Poll::Ready(Ok(())) }
+    fn version(&self) -> http::Version { if self.share { http::Version::HTTP_2 } else { http::Version::HTTP_11 } }
+}
+impl crate::client::pool::PoolableConnection<crate::Body> for OriginConn {
+    fn is_open(&self) -> bool { self.stream.is_open() }
+    fn can_share(&self) -> bool { self.share }
+    fn reuse(&mut self) -> Option<Self> { if self.share { Some(Self { stream: self.stream.clone(), share: true }) } else { None } }
+}
+#[derive(Debug, Clone)]
+struct OriginProtocol { log: Log }
+impl tower::Service<ProtocolRequest<MockStream, crate::Body>> for OriginProtocol {
+    type Response = OriginConn;
+    type Error = ConnErr;
+    type Future = std::future::Ready<Result<OriginConn, ConnErr>>;
+    fn poll_ready(&mut self, _cx: &mut Context<'_>) -> Poll<Result<(), Self::Error>> { Poll::Ready(Ok(())) }
+    fn call(&mut self, req: ProtocolRequest<MockStream, crate::Body>) -> Self::Future {
+        log(&self.log, format!("p.call {:?} on {:?}", req.version, req.transport.id()));
+        std::future::ready(Ok(OriginConn { share: req.version == HttpProtocol::Http2, stream: req.transport }))
+    }
+}
+type OriginSvc = crate::client::pool::service::ConnectionPoolService<TestTransport, OriginProtocol, crate::service::RequestExecutor<crate::client::pool::Pooled<OriginConn, crate::Body>, crate::Body>, crate::Body>;
+fn origin_service(connect_pending: usize) -> (OriginSvc, Log) {
+    let (t, _, l) = pair(0, connect_pending, 0, 0, Fail::None);
+    let svc = crate::client::pool::service::ConnectionPoolService::new(t, OriginProtocol { log: l.clone() }, crate::service::RequestExecutor::new(),
+        crate::client::pool::Config { idle_timeout: None, max_idle_per_host: 4, continue_after_preemption: false });
+    (svc, l)
+}
+/// sends one request, lets the hand-back task of the connection run, returns the stream the request went over
+async fn send_on(svc: &OriginSvc, uri: &str, version: http::Version) -> crate::client::conn::stream::mock::StreamID {
+    use tower::ServiceExt;
+    let resp = tokio::time::timeout(Duration::from_secs(5), svc.clone().oneshot(request(uri, version))).await
+        .unwrap_or_else(|_| panic!("{uri} {version:?}: the request hangs"))
+        .unwrap_or_else(|e| panic!("{uri} {version:?}: {e:?}"));
+    let on = resp.extensions().get::<ServedOn>().expect("response without the connection's marker").0;
+    drop(resp);
+    for _ in 0..8 { tokio::task::yield_now().await; }
+    on
+}
+/// (scheme, host, effective port) of an absolute URI: what "origin" means in C06
+fn origin_of(uri: &str) -> (String, String, u16) {
+    let u: http::Uri = uri.parse().unwrap();
+    let scheme = u.scheme_str().unwrap().to_string();
+    let port = u.port_u16().unwrap_or(if scheme == "https" { 443 } else { 80 });
+    (scheme, u.host().unwrap().to_string(), port)
+}
+/// the URI the stream `id` was dialled for, from the transport's log
+fn dialled_for(l: &Log, id: crate::client::conn::stream::mock::StreamID) -> String {
+    let prefix = format!("t.stream {:?} ", id);
+    l.lock().unwrap().iter().find_map(|e| e.strip_prefix(&prefix).map(|u| u.to_string()))
+        .unwrap_or_else(|| panic!("request served on stream {id:?}, which this service's transport never dialled"))
+}
+
+/// ps.key_of_request, ps.checkout_made, ps.detached_without_pool [C04,C06,C03]: a service that HAS a pool sends every
+/// request through it, whatever the request's HTTP version says: requests marked HTTP/0.9, 1.0 and 1.1 to one origin,
+/// one after the other, all go over the one connection the first of them dialled (each finds it idle and leaves it
+/// idle again); without a pool every request dials
+#[tokio::test]
+async fn pool_service_every_h1_version_uses_the_pool() {
+    use http::Version as V;
+    for order in [[V::HTTP_11, V::HTTP_10, V::HTTP_09, V::HTTP_11, V::HTTP_10, V::HTTP_11],
+                  [V::HTTP_10, V::HTTP_11, V::HTTP_09, V::HTTP_10, V::HTTP_09, V::HTTP_11],
+                  [V::HTTP_09, V::HTTP_09, V::HTTP_10, V::HTTP_10, V::HTTP_11, V::HTTP_11]] {
+        let (svc, l) = origin_service(0);
+        let mut first = None;
+        for (i, version) in order.into_iter().enumerate() {
+            let on = send_on(&svc, "http://one.test/x", version).await;
+            let f = *first.get_or_insert(on);
+            assert_eq!(on, f, "request {i} ({version:?}) of {order:?} to one origin was not sent on the idle connection the pool held for it");
+            assert_eq!(count(&l, "t.call"), 1, "request {i} ({version:?}) of {order:?} dialled although an idle connection to the origin was pooled");
+        }
+    }
+    // no pool: nothing is kept, every request dials its own connection
+    let (svc, l) = origin_service(0);
+    let svc = svc.without_pool();
+    let a = send_on(&svc, "http://one.test/x", V::HTTP_11).await;
+    let b = send_on(&svc, "http://one.test/x", V::HTTP_11).await;
+    assert_ne!(a, b, "a service without a pool reused a connection");
+    assert_eq!(count(&l, "t.call"), 2);
+}
+
+/// ps.key_of_request, ps.dials_for_request [C06]: a request is only ever sent on a connection that was dialled for its own
+/// origin (scheme, host, effective port).  Origins that differ only in the port - also when the explicit port is the
+/// OTHER scheme's default - never share; sequentially (idle reuse), and while an HTTP/2 dial is in flight (waiting)
+#[tokio::test]
+async fn pool_service_never_across_ports() {
+    use tower::ServiceExt;
+    let groups: [&[&str]; 4] = [
+        &["http://h.test/", "http://h.test:443/", "http://h.test:80/", "http://h.test:8080/"],
+        &["https://h.test/", "https://h.test:80/", "https://h.test:443/", "https://h.test:8443/"],
+        &["http://h.test:443/", "https://h.test:443/", "https://h.test/", "http://h.test/"],
+        &["https://h.test:80/", "http://h.test:80/", "http://h.test/", "https://h.test/"],
+    ];
+    for version in [http::Version::HTTP_11, http::Version::HTTP_2, http::Version::HTTP_10] {
+        for group in groups {
+            for rot in 0..group.len() {
+                let (svc, l) = origin_service(0);
+                // two rounds: the second finds every origin's connection idle (HTTP/1) or shared (HTTP/2) in the pool
+                for round in 0..2 {
+                    for k in 0..group.len() {
+                        let uri = group[(k + rot) % group.len()];
+                        let on = send_on(&svc, uri, version).await;
+                        let dialled = dialled_for(&l, on);
+                        assert_eq!(origin_of(&dialled), origin_of(uri),
+                            "round {round}, {version:?}: the request for {uri} was sent on a connection that was opened for {dialled}");
+                    }
+                }
+            }
+        }
+    }
+    // concurrent: while the HTTP/2 dial for one origin is in flight, a request for the other origin does not wait for it
+    for (u1, u2) in [("http://h.test/1", "http://h.test:443/2"), ("http://h.test:443/1", "http://h.test/2"),
+                     ("https://h.test/1", "https://h.test:80/2"), ("https://h.test:80/1", "https://h.test/2")] {
+        let (svc, l) = origin_service(3);
+        let mut first = Box::pin(svc.clone().oneshot(request(u1, http::Version::HTTP_2)));
+        assert!(futures_util::poll!(&mut first).is_pending());
+        let mut second = Box::pin(svc.clone().oneshot(request(u2, http::Version::HTTP_2)));
+        assert!(futures_util::poll!(&mut second).is_pending());
+        assert_eq!(count(&l, "t.call"), 2, "{u2} waits for the connection that is being opened for {u1}");
+        let both = async move { (first.await, second.await) };
+        let (r1, r2) = tokio::time::timeout(Duration::from_secs(5), both).await.expect("requests hang");
+        for (uri, r) in [(u1, r1), (u2, r2)] {
+            let on = r.unwrap_or_else(|e| panic!("{uri}: {e:?}")).extensions().get::<ServedOn>().expect("marker").0;
+            let dialled = dialled_for(&l, on);
+            assert_eq!(origin_of(&dialled), origin_of(uri), "the request for {uri} was sent on a connection that was opened for {dialled}");
+        }
     }
 }
